@@ -295,6 +295,36 @@ func runC05(c *core.Ctx) {
 			}
 		}
 	})
+	// period bounds typed day-first or month-first in a layout other than the one in effect, against a log whose days
+	// make the two readings select different days: refused, or read one way - the same way every time
+	{
+		srv := pool.Servers[0]
+		files := map[string]string{"food.yaml": "a/b:\n  x: 1\n", "log.yaml": "2021/03/04:\n  a/b: 1\n2021/03/20:\n  a/b: 2\n2021/04/03:\n  a/b: 3\n2021/05/06:\n  a/b: 4\n2021/06/05:\n  a/b: 5\n2021/11/12:\n  a/b: 6\n2021/12/11:\n  a/b: 7\n"}
+		srv.Write(files)
+		for _, cmd := range [][]string{{"reg"}, {"bal"}, {"csv", "log"}, {"print"}, {"report", "totals"}, {"reg", "-s", "x"}} {
+			for _, period := range [][]string{{"-b", "03/04/2021"}, {"-e", "05/06/2021"}, {"-b", "04/03/2021", "-e", "11/12/2021"}, {"-b", "2021-04-03"}, {"-e", "12.11.2021"}, {"-b", "3/4/21"}} {
+				args := append(append([]string{"--no-color", "-d", "food.yaml", "-l", "log.yaml"}, period...), cmd...)
+				outcomes := map[string]int{}
+				for _, v := range srv.App(args, nil, 24) {
+					outcomes[fmt.Sprintf("exit=%d\nerr=%s\n%s", btoi(v.Exit != 0), strings.TrimSpace(v.ErrText()), v.Out)] += v.Count
+				}
+				for k := 0; k < 4; k++ {
+					v := run.Exec(c.HR, args, run.ExecOpts{Dir: srv.Dir})
+					outcomes[fmt.Sprintf("exit=%d\nerr=%s\n%s", btoi(v.Exit != 0), strings.TrimSpace(v.ErrText()), v.Out)]++
+				}
+				c.Eval(28)
+				c.Count("cases_with_ambiguous_bounds_on_a_log_that_tells_them_apart", 1)
+				if len(outcomes) > 1 {
+					var ks []string
+					for k, cnt := range outcomes {
+						ks = append(ks, fmt.Sprintf("[%d runs] %s", cnt, clip(k, 500)))
+					}
+					sort.Strings(ks)
+					c.Violation(strings.Join(cmd[:min(2, len(cmd))], " ")+"|output-varies", fmt.Sprintf("%d different outcomes for identical inputs: %s %s", len(outcomes), joinArgs(period), joinArgs(cmd)), caseDoc{Files: files, Args: args, Observed: ks})
+				}
+			}
+		}
+	}
 	// the current date is an input like any other when it is given: the first instant of the calendar (the zero value
 	// of the time type) under a layout that shows fractions of a second - whatever replaced it would show
 	{
